@@ -153,6 +153,9 @@ func CanonOp(obs []Obs, left []int, env *canonEnv, namer *PubNamer, realmOf func
 			continue
 		}
 		m := maskText(env.walk(o.Msg, ""))
+		if len(left) >= 2 && c == 36 {
+			m = maskLeaver(m, left)
+		}
 		items = append(items, item{o.Recv, m})
 	}
 	// new publication ids of this op, ordered by an id-independent signature
@@ -172,9 +175,11 @@ func CanonOp(obs []Obs, left []int, env *canonEnv, namer *PubNamer, realmOf func
 			}
 		})
 		s := fmt.Sprintf("%d|%s", it.recv, masked.CanonString())
-		for _, id := range ids {
+		for pos, id := range ids {
 			if _, known := namer.toName[key(it.recv, id)]; !known {
-				sig[key(it.recv, id)] = append(sig[key(it.recv, id)], s)
+				// the position inside the message separates ids that the
+				// masked message cannot (entries of one history answer)
+				sig[key(it.recv, id)] = append(sig[key(it.recv, id)], fmt.Sprintf("%s#%04d", s, pos))
 			}
 		}
 	}
@@ -243,6 +248,22 @@ func sortIntLists(v Val) Val {
 		return out
 	}
 	return v
+}
+
+// maskLeaver: when several sessions end in one step (kill_by_*, kill_all) the
+// order in which their handlers leave is the scheduler's, so which of them
+// was the last member of a subscription or registration (first argument of
+// the on_delete meta event) is not determined.
+func maskLeaver(m Val, left []int) Val {
+	if len(m.L) > 4 && m.L[4].T == 'l' && len(m.L[4].L) == 2 && m.L[4].L[0].T == 'i' && m.L[4].L[1].T == 'i' {
+		for _, s := range left {
+			if m.L[4].L[0].I == fmt.Sprint(modelSid(s)) {
+				m.L[4] = List(Str("<a-leaving-session>"), m.L[4].L[1])
+				break
+			}
+		}
+	}
+	return m
 }
 
 func cloneVal(v Val) Val {
